@@ -594,10 +594,13 @@ def propagate_aliases(tree, property_names):
                 stores[n.id] += 1
         attr_stores = {n.attr for n in nodes if isinstance(n, ast.Attribute) and isinstance(n.ctx, (ast.Store, ast.Del))}
         cands = {}
+        # a read inside a try body may be there FOR its exception (`d = target.__dict__` / except AttributeError): moving it to
+        # the uses would move it out of the protected region
+        in_try = {id(a) for t in ast.walk(fn) if isinstance(t, ast.Try) and t.handlers for b in t.body for a in ast.walk(b) if isinstance(a, ast.Assign)}
         for st in fn.body:
             for n in ast.walk(st):
                 if isinstance(n, ast.Assign) and len(n.targets) == 1 and isinstance(n.targets[0], ast.Name) \
-                        and isinstance(n.value, ast.Attribute) and _attr_chain(n.value):
+                        and isinstance(n.value, ast.Attribute) and _attr_chain(n.value) and id(n) not in in_try:
                     name = n.targets[0].id
                     if stores.get(name) == 1 and name not in params and n.value.attr not in property_names \
                             and n.value.attr not in attr_stores:
